@@ -818,16 +818,32 @@ impl<F: Fam> Ctx<F> {
             run("&", (x & y).iter().map(|k| k.k()).collect(), mx.intersection(my).copied().collect());
             run("^", (x ^ y).iter().map(|k| k.k()).collect(), mx.symmetric_difference(my).copied().collect());
             run("-", (x - y).iter().map(|k| k.k()).collect(), mx.difference(my).copied().collect());
-            // cloned lazy iterators continue independently
+            // cloned lazy iterators continue independently from any point, and size_hint brackets
+            // what is still to come
             {
-                let mut it = x.union(y);
-                let first = it.next().map(|k| k.k());
-                let c = it.clone();
-                let rest1: Vec<u32> = it.map(|k| k.k()).collect();
-                let rest2: Vec<u32> = c.map(|k| k.k()).collect();
-                if rest1 != rest2 {
-                    problems.push(format!("union clone diverged (first {:?})", first));
+                fn probe<'a, K: KeyT + 'a, I: Iterator<Item = &'a K> + Clone>(name: &str, it: I, problems: &mut Vec<String>) {
+                    let total = it.clone().count();
+                    for j in [0usize, 1, total / 2, total] {
+                        let mut a = it.clone();
+                        for _ in 0..j.min(total) {
+                            a.next();
+                        }
+                        let (lo, hi) = a.size_hint();
+                        let c = a.clone();
+                        let rest1: Vec<u32> = a.map(|k| k.k()).collect();
+                        let rest2: Vec<u32> = c.map(|k| k.k()).collect();
+                        if rest1 != rest2 {
+                            problems.push(format!("{}: a clone taken after {} items yields {} items, the original {}", name, j, rest2.len(), rest1.len()));
+                        }
+                        if lo > rest1.len() || hi.map_or(false, |h| h < rest1.len()) {
+                            problems.push(format!("{}: size_hint ({}, {:?}) after {} items, but {} items follow", name, lo, hi, j, rest1.len()));
+                        }
+                    }
                 }
+                probe("union", x.union(y), &mut problems);
+                probe("intersection", x.intersection(y), &mut problems);
+                probe("difference", x.difference(y), &mut problems);
+                probe("symmetric_difference", x.symmetric_difference(y), &mut problems);
             }
             let preds = [
                 ("is_subset", x.is_subset(y), mx.is_subset(my)),
